@@ -14,6 +14,7 @@ import (
 	"fmt"
 	"runtime"
 	"runtime/debug"
+	"strings"
 	"sync"
 	"sync/atomic"
 	"time"
@@ -38,14 +39,14 @@ type PointRec struct {
 }
 
 type thread struct {
-	s    *Sched
-	id   int
-	name string
-	wake chan struct{}
-	cond func() bool // nil ⇒ enabled
-	done bool
-	goid uint64
-	pass bool // inside Passthrough: hooks ignore this thread
+	s      *Sched
+	id     int
+	name   string
+	wake   chan struct{}
+	cond   func() bool // nil ⇒ enabled
+	done   bool
+	goid   uint64
+	pass   bool // inside Passthrough: hooks ignore this thread
 	parent int
 }
 
@@ -75,7 +76,7 @@ type Sched struct {
 
 var (
 	active atomic.Value // *Sched
-	byGoid sync.Map // goid -> *thread
+	byGoid sync.Map     // goid -> *thread
 )
 
 func goid() uint64 {
@@ -329,15 +330,83 @@ var DropGo bool
 // plain goroutine otherwise.
 func Go(f func()) { GoNamed("", f) }
 
+// ---- free-running mode (race pass): no scheduler, real goroutines; Go registers with a wait group so that Join works
+// DropGoCallers: `go` statements inside functions whose name contains one of these strings are dropped (finer than
+// DropGo): e.g. the API-backed store's constructor starts its periodic flush loop, which the driver replaces by explicit
+// Flush events. Without this the loop's first, immediate run races the driver unsynchronised.
+var DropGoCallers []string
+
+// DroppedGo counts the go statements dropped through DropGoCallers (rigs assert that the drop really happened).
+var DroppedGo int64
+
+func droppedCaller() bool {
+	if len(DropGoCallers) == 0 {
+		return false
+	}
+	pcs := make([]uintptr, 6)
+	n := runtime.Callers(3, pcs)
+	frames := runtime.CallersFrames(pcs[:n])
+	for {
+		fr, more := frames.Next()
+		if !strings.Contains(fr.Function, "/zzverif/") {
+			for _, c := range DropGoCallers {
+				if strings.Contains(fr.Function, c) {
+					atomic.AddInt64(&DroppedGo, 1)
+					return true
+				}
+			}
+			return false // only the function that contains the go statement counts
+		}
+		if !more {
+			return false
+		}
+	}
+}
+
+var freePass int32
+var freeMu sync.Mutex
+var freeWG *sync.WaitGroup
+
+// FreeRun runs body with real goroutines and waits for everything it spawned through Go/GoNamed. It exists for the
+// informational `-race` pass: under the cooperative scheduler every hand-off is a happens-before edge that blinds the
+// race detector, so unsynchronised accesses have to be looked for in a separate free-running execution.
+func FreeRun(body func() interface{}) interface{} {
+	wg := &sync.WaitGroup{}
+	freeMu.Lock()
+	freeWG = wg
+	freeMu.Unlock()
+	obs := body()
+	wg.Wait()
+	freeMu.Lock()
+	freeWG = nil
+	freeMu.Unlock()
+	return obs
+}
+
+func freeGroup() *sync.WaitGroup {
+	freeMu.Lock()
+	defer freeMu.Unlock()
+	return freeWG
+}
+
 // GoNamed is Go with a thread name for reports.
 func GoNamed(name string, f func()) {
 	s, t := self()
 	if t == nil {
-		if DropGo {
+		if DropGo || droppedCaller() {
 			return // the harness owns what this background task would do (e.g. a periodic flush it triggers itself)
 		}
 		if InlineGo {
 			f() // sequential mode of engines B/C: the spawned body runs to completion at the spawn point
+			return
+		}
+		if wg := freeGroup(); wg != nil && atomic.LoadInt32(&freePass) == 0 {
+			wg.Add(1)
+			go func() {
+				defer wg.Done()
+				defer func() { _ = recover() }() // a panic of the code under test is the scheduled runs' business
+				f()
+			}()
 			return
 		}
 		go f()
@@ -351,6 +420,9 @@ func GoNamed(name string, f func()) {
 func Join() {
 	s, t := self()
 	if t == nil {
+		if wg := freeGroup(); wg != nil {
+			wg.Wait()
+		}
 		return
 	}
 	s.yield(t, func() bool {
@@ -370,6 +442,9 @@ func Join() {
 func JoinChildren() {
 	s, t := self()
 	if t == nil {
+		if wg := freeGroup(); wg != nil {
+			wg.Wait()
+		}
 		return
 	}
 	s.yield(t, func() bool {
@@ -440,6 +515,12 @@ func RunOnce(prefix []int, horizon int, body func() interface{}) *Exec {
 func Passthrough(f func()) {
 	_, t := self()
 	if t == nil {
+		if freeGroup() != nil {
+			// free-running mode: background goroutines started by set-up / tear-down code (probe loops ...) are not
+			// part of what Join waits for
+			atomic.AddInt32(&freePass, 1)
+			defer atomic.AddInt32(&freePass, -1)
+		}
 		f()
 		return
 	}
